@@ -317,7 +317,10 @@ Inductive op :=
                                                            [fs] through the restored handles (0, 1) and exits *)
 (* --- `with job:` / Job.open(): init(validate_statepoint=False), then chdir into the job directory (the working
    directory itself is not part of the model; leaving the block has no effect in the model) *)
-| OEnter (h : nat).
+| OEnter (h : nat)
+(* --- done to the file system behind signac's back (like OPlantDir / OPlantFile): a directory tree is removed, e.g. the
+   whole workspace directory of a project whose Project object lives on *)
+| OWipe (p : path).
 
 Inductive oval :=
 | VUnit | VBool (b : bool) | VNum (n : N) | VStr (s : str) | VStrs (l : list str) | VJson (j : json)
@@ -1106,6 +1109,11 @@ Section WS.
         match makedirs (w_fs w) p with
         | FErr e => (w, q, VExn EOSError)
         | FOk f1 => (set_fs w f1 [EvMkdir p], q, VUnit)
+        end
+    | OWipe p =>
+        match rmtree (w_fs w) p with
+        | FErr e => (w, q, VExn EOSError)
+        | FOk f1 => (set_fs w f1 [EvRmtree p], q, VUnit)
         end
     | OPlantFile p c =>
         match write_file (w_fs w) p c with
